@@ -515,9 +515,11 @@ pub fn child_bodies(name: &str) -> Option<Vec<Body>> {
     };
     let prove_body = || -> Body {
         Box::new(move || {
-            let cfg = Cfg::new(2, 1, 1, 1);
+            // the prover works at degree 2, the verifier at degree 1: the racing first uses ask for different prefixes of
+            // the cached arrays
+            let cfg = Cfg::new(2, 1, 1, 2);
             let wit = Wit::default_for(&cfg);
-            let pc = create_pedersen_gens_with_extension_degree(ext(1));
+            let pc = create_pedersen_gens_with_extension_degree(ext(2));
             let built = build_with_pc::<RistrettoPoint>(&cfg, &wit, pc).unwrap();
             let proof = lib_prove(&built, &CTX_A, &mut HRng::chacha(8)).unwrap();
             RistrettoPoint::to_bytes(&proof)
